@@ -46,13 +46,12 @@ func init() {
 	add("VH_C13_Fault", "quick", 3, 2, 0, 2, 4, 0, 0, 1, ft, map[string]int{"MAXFAIL": 9})
 	add("VH_C13_Fault", "quick", 3, 2, 1, 1, 4, 1, 1, 0, ft, map[string]int{"MAXFAIL": 12})
 	add("VH_C13_Fault", "quick", 2, 1, 0, 1, 0, 1, 2, 1, ft, map[string]int{"MAXFAIL": 12})
+	// thorough: one step beyond the quick bounds (the earlier n=8 / three-write / two-resource
+	// configurations did not finish within the 90-minute budget: 880 000 paths)
 	add("VH_C13_RoundTrip", "thorough", 8, 3, 1, 1, 0, 0, 0, 0, rt, nil)
-	add("VH_C13_RoundTrip", "thorough", 8, 3, 1, 2, 4, 1, 1, 1, rt, nil)
-	add("VH_C13_RoundTrip", "thorough", 8, 2, 1, 3, 8, 1, 2, 2, rt, nil)
-	add("VH_C13_RoundTrip", "thorough", 7, 3, 0, 2, 4, 0, 0, 2, rt, nil)
-	add("VH_C13_RoundTrip", "thorough", 6, 3, 0, 1, 2, 1, 2, 1, rt, nil)
+	add("VH_C13_RoundTrip", "thorough", 7, 3, 1, 2, 8, 1, 2, 1, rt, nil)
+	add("VH_C13_RoundTrip", "thorough", 6, 3, 0, 3, 4, 0, 0, 2, rt, nil)
 	add("VH_C13_Fault", "thorough", 4, 2, 1, 1, 4, 1, 2, 1, ft, map[string]int{"MAXFAIL": 16})
-	add("VH_C13_Fault", "thorough", 4, 3, 0, 2, 4, 0, 0, 2, ft, map[string]int{"MAXFAIL": 16})
 	for _, mc := range [][3]int{{0, 0, 0}, {0, 16, 0}, {1, 0, 1}, {1, 64, 1}, {0, 7, 1}} { // ila, page, thorough-only
 		ila, page := mc[0], mc[1]
 		p.Harnesses = append(p.Harnesses, HSpec{Prop: "C13", Pkg: L, Dir: "c13", Func: "VH_C13_ManyChunks", Cfg: func(c *gossa.Config, thorough bool) {
